@@ -10,8 +10,8 @@ from harness.framework import Suite
 
 PID = "C18"
 LEAN_MODS = ["SwcVerif.Props.C18", "SwcVerif.Props.C05", "SwcVerif.Props.C18Gen"]
-TRANSLATE_ALGO = ["AlgoDsu", "AlgoCheckers"]   # Gen/AlgoDsu.lean, Gen/AlgoCheckers.lean are regenerated from swcgeom/utils/dsu.py, swc_utils/base.py::get_dsu and swc_utils/checker.py::has_cyclic / is_bifurcate on every run
-DRIVER_FILES = ["SwcVerif/Model/AlgoRunDsu.lean"]
+TRANSLATE_ALGO = ["AlgoDsu", "AlgoCheckers", "AlgoNormalizer"]   # Gen/AlgoDsu.lean, Gen/AlgoCheckers.lean are regenerated from swcgeom/utils/dsu.py, swc_utils/base.py::get_dsu and swc_utils/checker.py::has_cyclic / is_bifurcate on every run
+DRIVER_FILES = ["SwcVerif/Model/AlgoRunDsu.lean", "SwcVerif/Model/AlgoRunNormalizer.lean"]
 THEOREMS = [
     "C18.dsu_refines_partition", "C18.runOps_cons", "C18.invalid_rejected", "C18.hasCyclic_spec", "C18.isBifurcate_correct",
     "C18.jumpPass_stop", "C18.getDsu_fixpoint", "C18.getDsu_sorted_forest", "Dsu.jumpLoop_forest", "C18.getDsu_forest", "C18.forest_single_label_iff", "Dsu.jumpLoop_conn", "C18.getDsu_labels_are_components", "C18.repair_somas", "C18.repair_nearest_partial", "Dsu.linkLoop_inv", "C18.repair_nearest_tree", "Dsu.cycle_strict", "Dsu.jumpLoop_terminates", "C18.getDsu_total", "C18.isSingleRoot_total",
@@ -22,6 +22,7 @@ THEOREMS = [
     "RefineCheckers.getDsu_refines", "C18.generated_getDsu_eq_model", "C18.generated_getDsu_total",
     "RefineCheckers.hasCyclic_refines", "C18.generated_hasCyclic_spec",
     "RefineCheckers.isBifurcate_refines", "C18.generated_isBifurcate_eq_model", "RefineCheckers.isSorted_refines",
+    "RefineNorm.markRoots_refines", "RefineNorm.resetIndex_refines", "C18.generated_markRoots_eq_model", "C18.generated_resetIndex",
 ]
 TRUSTED = ["hand-written models Model/Dsu.lean of DisjointSetUnion, has_cyclic, is_bifurcate, get_dsu / is_single_root, mark_roots_as_somas_, "
            "link_roots_to_nearest_ (tied by the c18.* correspondence suites: union/find scripts, ALL parent tables with n ≤ 5, random larger ones, multi-root files)"]
@@ -365,6 +366,8 @@ class Repair(Suite):
         nroots = sum(1 for p in case["pids"] if p == -1)
         if "exc" not in res.get("somas", {"exc": 1}) and nroots > 1:
             out.append((f"somas {a} types={gen.ints(case['types'])} ut=1", f"{gen.ints(res['somas']['pid'])} / {gen.ints(res['somas']['type'])}"))
+            # the definition generated from mark_roots_as_somas_ on this run (translator cross-check)
+            out.append((f"gsomas {a} types={gen.ints(case['types'])} ut=1", f"{gen.ints(res['somas']['pid'])} / {gen.ints(res['somas']['type'])}"))
         if "exc" not in res.get("nearest", {"exc": 1}) and nroots > 1:
             xs, ys, zs = zip(*case["xyz"])
             out.append((f"nearest {a} x={gen.ints(xs)} y={gen.ints(ys)} z={gen.ints(zs)}", gen.ints(res["nearest"]["pid"])))
